@@ -214,7 +214,7 @@ def report(chk, build, rejected, stats, tier="quick", asan=False, hooks=True):
                                                             "fault:bug", "fault:assert") and k["site"].startswith("phase:")]
     if need and not asan:
         def site_of(x):
-            return cr.crash_site(build, x[0].inp) or x[2]["site"]
+            return cr.crash_site(build, x[0].inp, stack_kb=STACK_KB.get(x[0].inp.cls)) or x[2]["site"]
         groups = {}
         for x in need:
             groups.setdefault((json.dumps(x[2], sort_keys=True), x[0].stdout[-160:]), []).append(x)
@@ -256,7 +256,13 @@ def report(chk, build, rejected, stats, tier="quick", asan=False, hooks=True):
         for r, v, k in doubt:
             r.inp.timeout = 10 * (r.inp.timeout or TIME_BOUND[r.inp.cls])
             ins.append(r.inp)
-        runs2 = cr.run_inputs(build, ins, jobs=8, timeout=300, hooks=hooks, vlimit_kb=VLIMIT_KB["mutant"], tag="c07again")
+        runs2 = [None] * len(ins)
+        for cls in sorted(set(i.cls for i in ins)):
+            idx = [j for j, i in enumerate(ins) if i.cls == cls]
+            part = cr.run_inputs(build, [ins[j] for j in idx], jobs=8, timeout=300, hooks=hooks, vlimit_kb=VLIMIT_KB["mutant"],
+                                 tag="c07again", stack_kb=STACK_KB.get(cls))
+            for j, r2 in zip(idx, part):
+                runs2[j] = r2
         vs2, _ = cr.validate(runs2, chunk=200, parallel=4)
         flaky = 0
         gone = set()
